@@ -184,7 +184,7 @@ class RealFloat__round_at(Contract):
             'tiny_pre': r._flags.tiny_pre == tiny_pre_spec(self, emin),
             'tiny_post': r._flags.tiny_post == tiny_post_spec(self, n, emin, rm),
             'other_flags': not r._flags.invalid and not r._flags.divzero and not r._flags.overflow,
-            'member_n': r._exp > n or (r._exp > self._exp - 1 and r._exp == self._exp),
+            'member_n': r._exp > n,
             'member_p': p is None or bl(r._c) <= p,
         }
 
@@ -241,7 +241,7 @@ class RealFloat__round_at_stochastic(Contract):
             'sign': r._s == self._s,
             'wf': r._c >= 0,
             'member_p': p is None or bl(r._c) <= p,
-            'member_n': r._exp > n or r._exp == self._exp,
+            'member_n': r._exp > n,
             'tiny_pre': r._flags.tiny_pre == tiny_pre_spec(self, emin),
             'other_flags': not r._flags.invalid and not r._flags.divzero and not r._flags.overflow,
             'fresh': not same_obj(r, self),
@@ -301,6 +301,10 @@ class RealFloat_round(Contract):
               'num_randbits': 'int | None', 'rng': 'RNG | None', 'exact': 'bool'}
     returns = 'RealFloat'
     properties = ['C01', 'C17']
+    # `round` only computes the position n* and delegates: the definitions of rnd_at / tiny_post_spec are not
+    # needed to show that it passes the right (p, n, emin, rm) on -- they are abstracted to uninterpreted
+    # functions of all their arguments (congruence only)
+    options = {'opaque': {'rnd_at': ['all', 'tuple[int, int, bool, bool]'], 'tiny_post_spec': ['all', 'bool']}, 'quant': True}
 
     def pre(self, max_p, min_n, rm, num_randbits, rng, exact):
         return {
